@@ -22,10 +22,10 @@ Inductive tail_eqs (S E D F : R) : Prop :=
 
 Theorem df_tail_eqs (sum12 err12 : PrimFloat.float) :
   bnd sum12 54 -> bnd err12 55 ->
-  let '(d, f) := df_tail sum12 err12 in
+  let '(d, f) := df_tail0 sum12 err12 in
   fin d /\ fin f /\ tail_eqs (R_of sum12) (R_of err12) (R_of d) (R_of f).
 Proof.
-  intros Bs Be. unfold df_tail.
+  intros Bs Be. unfold df_tail0.
   (* day0 = floor (sum12 + 0.5) *)
   destruct (add_b sum12 0.5%float 54 ltac:(lia) ltac:(lia) Bs (bnd_half 54 ltac:(lia))) as [Ea0 Ba0].
   destruct R_half as [Eh _]. rewrite Eh in Ea0.
@@ -155,9 +155,9 @@ Proof.
 Qed.
 
 
-Theorem df_tail_sound (s e : PrimFloat.float) :
+Theorem df_tail0_sound (s e : PrimFloat.float) :
   fin s -> fin e -> Rabs (R_of s) <= bpow radix2 52 -> Rabs (R_of e) <= / 2 ->
-  let '(d, f) := df_tail s e in
+  let '(d, f) := df_tail0 s e in
   fin d /\ fin f /\ (exists k : Z, R_of d = IZR k) /\
   Rabs (R_of d + R_of f - (R_of s + R_of e)) <= bpow radix2 (-53) /\
   Rabs (R_of f) <= / 2 + bpow radix2 (-50).
@@ -167,6 +167,6 @@ Proof.
   assert (B2 : bnd e 55).
   { split; [exact Fe|]. apply Rle_trans with (1:=Be). apply Rle_trans with 1; [lra|]. change 1 with (bpow radix2 0). apply bpow_le. lia. }
   pose proof (df_tail_eqs s e B1 B2) as H.
-  destruct (df_tail s e) as [d f]. destruct H as (Fd & Ff & Heqs).
+  destruct (df_tail0 s e) as [d f]. destruct H as (Fd & Ff & Heqs).
   split; [exact Fd|]. split; [exact Ff|]. exact (tail_eqs_sound _ _ _ _ Heqs Bs Be).
 Qed.
